@@ -79,7 +79,7 @@ def mandatory_bins(tier):
     b = ["small_curve", "pair_add", "pair_add_with_infinity", "pair_add_equal_operands", "pair_add_inverse_operands", "rep_unreduced_negative_y", "rep_scaled", "rep_same_z", "rep_different_z",
          "double", "negate", "scalar_mul_all_0_to_2n_plus_1", "scalar_mul_precompute_path", "scalar_mul_without_order", "mul_add", "affine_point_arithmetic", "mixed_jacobi_affine", "equality_across_representations",
          "anomalous_curve_n_eq_p", "long_lived_point_objects_reused_across_operations", "curve_a_zero", "curve_a_minus_3", "curve_p_1_mod_4",
-         "shipped_curve", "kG_vs_openssl", "kQ_vs_openssl", "mul_add_vs_openssl", "negation_scale_combination", "scalar_n", "scalar_n_plus_1", "scalar_2^k", "scalar_2^k-1", "ecdh_vs_openssl", "ecdh_edge_scalar",
+         "shipped_curve", "kG_vs_openssl", "kQ_vs_openssl", "mul_add_vs_openssl", "negation_scale_combination", "scalar_n", "scalar_n_plus_1", "scalar_2^k", "scalar_2^k-1", "ecdh_vs_openssl", "ecdh_edge_scalar", "ecdh_keys_loaded_as_bytes", "ecdh_keys_loaded_as_der", "ecdh_keys_loaded_as_pem", "ecdh_keys_loaded_as_object", "ecdh_generated_private_key",
          "invalid_off_curve", "invalid_coordinate_ge_p", "invalid_congruent_coordinate_ge_p", "invalid_zero_zero", "invalid_other_curve_point", "invalid_point_object_of_sibling_curve", "invalid_point_outside_prime_order_subgroup", "invalid_infinity", "repository_suite_under_group_law_monitor"]
     return b
 
@@ -380,8 +380,36 @@ def run_shipped(ns, ctx, spec):
         sk2 = K.SigningKey.from_secret_exponent(d2, curve=cv, hashfunc=hashlib.sha256)
         e1 = ns.ecdh.ECDH(curve=cv, private_key=sk1, public_key=sk2.verifying_key)
         e2 = ns.ecdh.ECDH(curve=cv)
-        e2.load_private_key_bytes(sk2.to_string())
-        e2.load_received_public_key_bytes(sk1.verifying_key.to_string("uncompressed" if i % 2 else "compressed"))
+        route = ("bytes", "der", "pem", "object")[(i + rng.randrange(4)) % 4] if i >= 3 else ("bytes", "der", "pem")[i]
+        ctx.bin("ecdh_keys_loaded_as_" + route)
+        if route == "bytes":
+            e2.load_private_key_bytes(sk2.to_string())
+            e2.load_received_public_key_bytes(sk1.verifying_key.to_string("uncompressed" if i % 2 else "compressed"))
+        elif route == "der":
+            e2.load_private_key_der(sk2.to_der(format="pkcs8" if i % 2 else "ssleay"))
+            e2.load_received_public_key_der(sk1.verifying_key.to_der("compressed" if i % 2 else "uncompressed"))
+        elif route == "pem":
+            e2.load_private_key_pem(sk2.to_pem(format="ssleay" if i % 2 else "pkcs8"))
+            e2.load_received_public_key_pem(sk1.verifying_key.to_pem())
+        else:
+            e2 = ns.ecdh.ECDH()  # the curve is taken from the key
+            e2.load_private_key(sk2)
+            e2.load_received_public_key(sk1.verifying_key)
+        if i == 3:
+            # a key pair drawn by the ECDH object itself: its published key must give the peer the same secret
+            e3 = ns.ecdh.ECDH(curve=cv)
+            pub3 = e3.generate_private_key()
+            d3 = int(e3.private_key.privkey.secret_multiplier)
+            ctx.bin("ecdh_generated_private_key")
+            try:
+                e3.load_received_public_key(sk1.verifying_key)
+                e4 = ns.ecdh.ECDH(curve=cv, private_key=sk1, public_key=e3.get_public_key())
+                s3, s4 = e3.generate_sharedsecret_bytes(), e4.generate_sharedsecret_bytes()
+                ctx.mon("ECDH.generate_sharedsecret_bytes", 2)
+                if not (s3 == s4 == ossl.ecdh(name, d3, ossl.point_mul(name, d1))) or pub3.to_string() != e3.get_public_key().to_string():
+                    ctx.violation("ecdh_with_generated_key_differs", {"curve": cv.name}, dict(rp, d1=hex(d1), d3=hex(d3)))
+            except Exception as e:
+                ctx.violation("ecdh_raises", {"curve": cv.name, "exc": fmt_exc(e), "route": "generated"}, dict(rp, d1=hex(d1)))
         ctx.ev()
         ctx.bin("ecdh_vs_openssl")
         ctx.distinct(cv.name, "ecdh", d1, d2)
@@ -412,6 +440,8 @@ def run_shipped(ns, ctx, spec):
             good = K.SigningKey.from_secret_exponent(5, curve=cv).verifying_key.to_der()
             if good.endswith(K.SigningKey.from_secret_exponent(5, curve=cv).verifying_key.to_string()):
                 ways.append(("from_der", lambda: K.VerifyingKey.from_der(good[: -2 * L] + raw)))
+                ways.append(("ecdh_load_der", lambda: ns.ecdh.ECDH(curve=cv).load_received_public_key_der(good[: -2 * L] + raw)))
+                ways.append(("ecdh_load_pem", lambda: ns.ecdh.ECDH(curve=cv).load_received_public_key_pem(ns.der.topem(good[: -2 * L] + raw, "PUBLIC KEY"))))
         ways.append(("from_public_point_jacobi", lambda: K.VerifyingKey.from_public_point(PJ(cv.curve, x, y, 1, n), curve=cv)))
         for wname, fn in ways:
             ctx.ev()
